@@ -235,6 +235,7 @@ func resolveHook(h *clientHook) *clientHook {
 		if h == nil {
 			return nil
 		}
+		verifYield("resolveHook:between-locks")
 		h.mu.Lock()
 	}
 }
